@@ -380,3 +380,39 @@ Proof.
   eapply perm_trans; [apply Permutation_sym, sort_perm|].
   eapply perm_trans; [exact Hp|apply sort_perm].
 Qed.
+
+(* ---------- stripping in the middle of a line ---------- *)
+Lemma dropwhile_app_stop p x c y :
+  p c = false -> dropwhile p (x ++ c :: y) = dropwhile p x ++ c :: y.
+Proof.
+  intros Hc. induction x as [|h t IH]; simpl.
+  - now rewrite Hc.
+  - destruct (p h); [exact IH|reflexivity].
+Qed.
+
+(* rstrip never passes a character outside the set *)
+Lemma rstrip_p_keep p a c b : p c = false -> rstrip_p p (a ++ c :: b) = a ++ c :: rstrip_p p b.
+Proof.
+  intros Hc. unfold rstrip_p. rewrite rev_app_distr. simpl. rewrite <- app_assoc. simpl.
+  rewrite dropwhile_app_stop by assumption. rewrite rev_app_distr. simpl.
+  rewrite rev_involutive. rewrite <- app_assoc. reflexivity.
+Qed.
+
+Lemma forallb_dropwhile q p l : forallb q l = true -> forallb q (dropwhile p l) = true.
+Proof.
+  induction l as [|c l IH]; simpl; [reflexivity|]. intros H. apply andb_true_iff in H as [H1 H2].
+  destruct (p c); [now apply IH|]. simpl. now rewrite H1, H2.
+Qed.
+
+Lemma forallb_rev q (l : str) : forallb q l = true -> forallb q (rev l) = true.
+Proof. rewrite !forallb_forall. intros H x Hx. apply H. now apply in_rev. Qed.
+
+Lemma forallb_rstrip q p l : forallb q l = true -> forallb q (rstrip_p p l) = true.
+Proof. intros H. unfold rstrip_p. now apply forallb_rev, forallb_dropwhile, forallb_rev. Qed.
+
+Lemma last_not_split p v :
+  v <> [] -> last_not p v = true -> exists v' c, v = v' ++ [c] /\ p c = false.
+Proof.
+  intros Hne H. destruct (exists_last Hne) as (v' & c & ->). exists v', c. split; [reflexivity|].
+  unfold last_not in H. rewrite rev_app_distr in H. simpl in H. now apply negb_true_iff.
+Qed.
